@@ -1,5 +1,5 @@
 #!/usr/bin/env python3
-"""crossmatrix.py [workers] [diag]: every kept seeded change x every property check (quick tier, scratch copies, never /repo).
+"""crossmatrix.py [workers] [diag|all] [suffixes, e.g. f,g]: every kept seeded change x every property check (quick tier, scratch copies, never /repo).
 Writes gen/crossmatrix.json: {seed: {prop: rc}}.  A development aid: cells outside the diagonal that show rc 1 are looked at by
 hand (does the change really violate that property too?)."""
 import glob, json, os, shutil, subprocess, sys, tempfile
@@ -9,6 +9,9 @@ props = sorted(json.load(open(os.path.join(V, 'vp', 'props.json'))))
 seeds = sorted(os.path.basename(os.path.dirname(p)) for p in glob.glob(os.path.join(V, 'seeded', '*', 'patch.diff')))
 workers = int(sys.argv[1]) if len(sys.argv) > 1 else 4
 diag = len(sys.argv) > 2 and sys.argv[2] == 'diag'   # only the seed's own property
+suffixes = sys.argv[3].split(',') if len(sys.argv) > 3 else None
+if suffixes:
+    seeds = [x for x in seeds if x.split('-')[-1] in suffixes]
 res = {}
 
 def job(seed):
